@@ -264,3 +264,33 @@ void vf_harness(void) { int k; HashMap_find(k); VF_CANARY(); }
     desc='HashMap::find / has on a bucket chain: finds precisely the keys present', functions=['HashMap::find', 'HashMap::has'],
 )
 UNITS += [map_eq, hm_remove, hm_index]
+
+# ---- HashMap::rehash: where a moved entry is put is where lookups will search for it afterwards
+rehash_bin = Unit(
+    'HashMap_rehash_bin', 'C02',
+    cuts=[Cut('skip', HM, r'^#define ASL_HMAP_SKIP ', kind='define', rules=[(r'sizeof\(AtomicCount\)', 'sizeof(int)', 1)]),
+          Cut('binof', HM, r'^\tint binOf\(const K& key\) const\s*$', rules=[(r'hash\(key\)', 'key_hash', 1), (r'\ba\.length\(\)', 'a_len', None)]),
+          Cut('bin', HM, r'(int bin = [^;]*;)\s*KeyValN\* p2 = b\[bin\]', kind='expr',
+              rules=[(r'hash\(p->key\)', 'key_hash', None), (r'\bb\.length\(\)', 'b_len', None), (r'\ba\.length\(\)', 'a_len', None), (r'binOf\(p->key\)', 'binOf(a_len, key_hash)', None)]),
+          Cut('newsize', HM, r'Array<KeyValN\*> b\(([^;]*)\);', kind='expr', rules=[(r'\ba\.length\(\)', 'a_len', None)])],
+    text=PRE + r'''
+@@skip@@
+static int binOf(int a_len, int key_hash) @@binof@@
+int nondet_int(void);
+void vf_harness(void) {
+  int buckets = nondet_int(), key_hash = nondet_int();
+  __CPROVER_assume(buckets >= 1 && buckets <= (1 << 20) && (buckets & (buckets - 1)) == 0);     /* table sizes are powers of two (nextPoT) */
+  int a_len = buckets + ASL_HMAP_SKIP;
+  int b_len = @@newsize@@;                                                                    /* size of the grown table */
+  @@bin@@
+  __CPROVER_assert(ASL_HMAP_SKIP <= bin && bin < b_len, "rehash: destination bucket index is inside the new table");
+  __CPROVER_assert(bin == binOf(b_len, key_hash), "rehash puts every entry into the bucket where find/has/operator[] look for it once the new table is installed");
+  __CPROVER_assert(((b_len - ASL_HMAP_SKIP) & (b_len - ASL_HMAP_SKIP - 1)) == 0 && b_len > a_len, "the grown table again has a power-of-two number of buckets");
+  VF_CANARY();
+}
+''',
+    entry=None, floor=3, expect=['assertion'],
+    desc='HashMap::rehash bucket placement for every hash value and every power-of-two table size: the bucket an entry is moved to is the one binOf() selects in the grown table (content is independent of table growth)',
+    functions=['HashMap::rehash (placement)', 'HashMap::binOf'],
+)
+UNITS += [rehash_bin]
